@@ -49,7 +49,7 @@ SCHEDS = [
 OPS = ["are_you_there", "request_svs", "request_sv", "list_svs", "request_ecs", "list_ecs", "set_ec", "set_ec",
        "list_alarms", "enable_alarm", "subscribe", "trigger", "trigger", "go_online", "go_offline", "remote_command",
        "set_alarm", "clear_alarm", "operator", "cycle_host", "cycle_equipment", "cycle_mid_call", "clear_events",
-       "subscribe"]
+       "subscribe", "call_and_trigger", "call_and_trigger"]
 
 
 def gen_plan(rng, tier, index):
@@ -63,7 +63,9 @@ def gen_plan(rng, tier, index):
             "gap": rng.choice([0, 0, 0.01, 0.5, 3.0, 12.0]), "ops": ops, "t3": rng.choice([2.0, 5.0]),
             "t5": rng.choice([1, 2, 10]), "t6": rng.choice([1, 5]), "delay": rng.choice([1, 3]),
             "latency": rng.choice([0.0, 0.0005, 0.02, 0.2]), "jitter": rng.choice([0, 0, 0.005, 0.1]),
-            "segment": rng.choice([None, None, 1, 3, 13, 100])}
+            "segment": rng.choice([None, None, 1, 3, 13, 100]),
+            # TCP coalescing: what is sent within this many seconds arrives in one piece
+            "coalesce": rng.choice([0, 0, 0.001, 0.02])}
     sched = dict(rng.choice(SCHEDS))
     sched["seed"] = rng.getrandbits(48)
     if rng.random() < 0.5:
@@ -71,6 +73,13 @@ def gen_plan(rng, tier, index):
         # their first yield points
         sched["stall"] = {"q": rng.choice([0.1, 0.2, 0.4]), "J": rng.choice([8, 40, 200, 1000]),
                           "durs": [0.05, 0.5, 3.0], "max": 3}
+        if rng.random() < 0.5:
+            # wake-relative placement: shortly after one of the thread's first W wake-ups
+            sched["stall"].update(W=rng.choice([0, 2, 6, 20]), J=rng.choice([5, 20, 60]))
+    if rng.random() < 0.4:
+        # fault: a thread is descheduled for a moment just before one of its synchronisation calls
+        sched["sync_stall"] = {"n": rng.choice([2, 4, 8, 16]), "horizon": rng.choice([200, 800, 3000, 10000]),
+                               "durs": [0.002, 0.03]}
     plan["sched"] = sched
     return plan
 
@@ -92,7 +101,7 @@ def run(sim, plan):
     import secsgem.secs.variables as var
 
     k = sim.k
-    net = sim.make_net(latency=plan["latency"], jitter=plan["jitter"], max_segment=plan["segment"])
+    net = sim.make_net(latency=plan["latency"], jitter=plan["jitter"], max_segment=plan["segment"], coalesce=plan.get("coalesce", 0))
     T3, T5, T6, DELAY = plan["t3"], plan["t5"], plan["t6"], plan["delay"]
     B = T5 + T6 + T3 + DELAY + 10 + 40 * plan["latency"]
     host_active = plan["host_active"]
@@ -237,6 +246,9 @@ def run(sim, plan):
 
     def do_op(op, salt):
         nonlocal nontrivial
+        # a thread frozen during an earlier operation finishes that operation's work first (its late report would carry
+        # values set by this one)
+        sim.wait_until(lambda: not k.stalled_now(), 6)
         if not both_communicating():
             expect_communication("before-" + op)
         if op == "are_you_there":
@@ -251,6 +263,44 @@ def run(sim, plan):
             got = [g[0] if isinstance(g, (bytes, list)) and i == 1002 and len(g) == 1 else g for g, i in zip(got or [], ids)]
             if got != want:
                 sim.violation("C20.R2", f"request_svs({ids}) returned {got}, equipment holds {want}", sig="C20.R2|request_svs")
+        elif op == "call_and_trigger":
+            # a host call and an equipment event at the same time: two messages reach the host back to back
+            if not subscribed:
+                return
+            ceid = sorted(subscribed)[salt % len(subscribed)]
+            tokens["n"] += 1
+            tok = 7000 + tokens["n"]
+            eq.data_values[30].value = tok
+            n0 = len(received_events)
+            sim.probe("call_and_trigger")
+            t_call = k.now
+            if salt % 2:
+                eq.trigger_collection_events([ceid])
+                pending = call("concurrent_svs", lambda: host.request_svs([10]), None)
+            else:
+                pending = call("concurrent_svs", lambda: host.request_svs([10]), None)
+                eq.trigger_collection_events([ceid])
+            sim.focus(2)
+            if not sim.wait_until(lambda: pending["done"], api_timeout + 2 * T3):
+                sim.violation("C20.R4", "host call request_svs (concurrent with an event) did not return",
+                              sig=stuck_sig("api-concurrent"))
+            sim.wait_until(lambda: len(received_events) > n0, api_timeout)
+            sim.advance(0.3 + 4 * plan["latency"])
+            if k.stalled_within(t_call, k.now) >= 0.4 * T3:
+                sim.probe("api_cut_by_stall")
+                return
+            if pending["exc"] is not None or pending["result"] is None or \
+                    pending["result"].get() != [eq.status_variables[10].value]:
+                sim.violation("C20.R2", f"request_svs([10]) issued together with an event returned "
+                              f"{pending['exc'] or (pending['result'] and pending['result'].get())!r}, equipment holds "
+                              f"{[eq.status_variables[10].value]}", sig="C20.R2|request_svs-concurrent")
+            link = eq.registered_collection_events.get(ceid)
+            want_n = len(link.reports) if link is not None and link.enabled else 0
+            mine = [e for e in received_events[n0:] if e[0] == ceid and e[2] and tok in e[2]]
+            if want_n and len(mine) != want_n:
+                sim.violation("C20.R3", f"event {ceid} triggered together with a host call reached the host {len(mine)} "
+                              f"times (reports linked: {want_n}); history {hist[-5:]}",
+                              sig=f"C20.R3|event-count-{min(len(mine), 2)}-want-{min(want_n, 2)}|concurrent")
         elif op == "request_sv":
             res = api(op, lambda: host.request_sv("svt"))
             if res != eq.status_variables["svt"].value:
@@ -306,13 +356,14 @@ def run(sim, plan):
                 return
             rpt["n"] += 1
             rid = rpt["n"]
-            api(op, lambda: host.subscribe_collection_event(ceid, [30, 10], rid))
+            vids = [[30, 10], [10, 30], [10, 30, "svt"], [30], ["svt", 30, 10]][(salt // 3) % 5]
+            api(op, lambda: host.subscribe_collection_event(ceid, list(vids), rid))
             link = eq.registered_collection_events.get(ceid)
             if link is None or rid not in list(link.reports) or not link.enabled:
                 sim.violation("C20.R2", f"subscribe_collection_event({ceid}, report {rid}) completed but the equipment has "
                               f"link {None if link is None else (list(link.reports), link.enabled)}",
                               sig="C20.R2|subscribe-not-effective")
-            subscribed[ceid] = rid
+            subscribed[ceid] = (rid, vids)
         elif op == "clear_events":
             api(op, host.clear_collection_events)
             sim.probe("clear_events")
@@ -330,13 +381,24 @@ def run(sim, plan):
             tok = 7000 + tokens["n"]
             eq.data_values[30].value = tok
             n0 = len(received_events)
+            t_op = k.now
             eq.trigger_collection_events([ceid])
             sim.wait_until(lambda: len(received_events) > n0, api_timeout)
+            sim.wait_until(lambda: not k.stalled_now(), 6)
             sim.advance(0.3 + 4 * plan["latency"])
+            if k.stalled_within(t_op, k.now) >= 0.4 * T3:
+                sim.probe("api_cut_by_stall")
+                return
             mine = [e for e in received_events[n0:] if e[0] == ceid]
             link = eq.registered_collection_events.get(ceid)
             want_n = len(link.reports) if link is not None and link.enabled else 0
-            with_token = [e for e in mine if e[2] and e[2][0] == tok]
+            vids = subscribed[ceid][1]
+            want_vals = [tok if v == 30 else eq.status_variables[v].value for v in vids]
+            with_token = [e for e in mine if e[2] and tok in e[2]]
+            wrong = [e for e in mine if e[1] == subscribed[ceid][0] and list(e[2]) != want_vals]
+            if want_n and wrong:
+                sim.violation("C20.R3", f"event {ceid} (report {subscribed[ceid][0]} over variables {vids}) reached the host "
+                              f"with values {wrong[0][2]}, the equipment holds {want_vals}", sig="C20.R3|event-values")
             if want_n and (len(with_token) != want_n or len(mine) != want_n):
                 sim.violation("C20.R3", f"event {ceid} triggered with token {tok} while enabled and communicating reached "
                               f"the host {len(with_token)} times (reports linked: {want_n}); received {mine}; history "
@@ -364,10 +426,15 @@ def run(sim, plan):
             a = eq.alarms[25]
             change = (op == "set_alarm") != a.set
             n0 = len(alarms_rx)
+            t_op = k.now
             r = call(op, (lambda: eq.set_alarm(25)) if op == "set_alarm" else (lambda: eq.clear_alarm(25)), api_timeout)
             if not r["done"]:
                 sim.violation("C20.R4", f"{op} did not return", sig=stuck_sig(op))
+            sim.wait_until(lambda: not k.stalled_now(), 6)
             sim.advance(0.3 + 4 * plan["latency"])
+            if k.stalled_within(t_op, k.now) >= 0.4 * T3:
+                sim.probe("api_cut_by_stall")     # the report (or its S5F2) was held up by a frozen thread beyond T3
+                return
             want = 1 if (change and a.enabled) else 0
             if len(alarms_rx) - n0 != want:
                 sim.violation("C20.R3", f"{op}(25) with enabled={a.enabled} change={change}: host received "
@@ -388,6 +455,7 @@ def run(sim, plan):
 
     for op, salt in plan["ops"]:
         hist.append(op)
+        sim.log("op", op)
         try:
             do_op(op, salt)
         except Skip:
